@@ -260,7 +260,17 @@ func newC18fs() *c18fs {
 	return &c18fs{fs: mfs.VerifFS(), mfs: mfs, w: w, dir: dir, bndl: b}
 }
 
-func (f *c18fs) close() { os.RemoveAll(f.dir) }
+var c18closed atomic.Int64
+
+// close removes the staging directory. The mount opens a new backing file handle on every read and write and leaves
+// closing them to the garbage collector's finalizers; with thousands of short-lived mounts per second in one process the
+// descriptors would run out (EMFILE surfaces as EIO), so a collection is forced every few hundred mounts.
+func (f *c18fs) close() {
+	os.RemoveAll(f.dir)
+	if c18closed.Add(1)%256 == 0 {
+		runtime.GC()
+	}
+}
 
 // staging lists the backing files (named by inode number) with their content.
 func (f *c18fs) staging() string {
@@ -713,15 +723,35 @@ func c18rootLinks() uint32 {
 
 // build replays a history on a fresh file system; returns nil model if the history no longer applies.
 func c18build(h []c18op) (*c18fs, *c18model, string) {
-	f := newC18fs()
-	m := newC18model()
-	for i, op := range h {
-		if msg := c18step(f, m, op); msg != "" {
-			return f, m, fmt.Sprintf("step %d %s: %s", i, op, msg)
+	for attempt := 0; ; attempt++ {
+		f := newC18fs()
+		m := newC18model()
+		failed, msg := -1, ""
+		for i, op := range h {
+			if msg = c18step(f, m, op); msg != "" {
+				failed = i
+				break
+			}
 		}
+		if failed < 0 {
+			return f, m, ""
+		}
+		// Every proper prefix of h was executed and compared with the model before (BFS order): a disagreement at an
+		// EARLIER step than the last one is not a property of this history but of the process (descriptor exhaustion,
+		// see close); an EIO at the last step has the same cause. Collect, replay again; only a disagreement that persists is
+		// reported.
+		if (failed < len(h)-1 || strings.Contains(msg, "EIO")) && attempt < 3 {
+			f.close()
+			runtime.GC()
+			time.Sleep(50 * time.Millisecond)
+			c18prefixRetries.Add(1)
+			continue
+		}
+		return f, m, fmt.Sprintf("step %d %s: %s", failed, h[failed], msg)
 	}
-	return f, m, ""
 }
+
+var c18prefixRetries atomic.Int64
 
 func TestC18(t *testing.T) {
 	if os.Getenv("VERIF_C18_WORKER") != "" {
@@ -1008,6 +1038,7 @@ func c18worker(t *testing.T) {
 	rep.Set("deepened_roots", res.DeepenedRoots)
 	rep.Set("states_beyond_base_depth", res.StatesBeyondMaxDepth)
 	rep.Set("bfs_workers", workers)
+	rep.Set("prefix_replays_retried_after_resource_exhaustion", c18prefixRetries.Load())
 	if capped.Load() {
 		rep.NotExhaustive(fmt.Sprintf("time budget hit while exploring depth %d, after %d states; every shallower depth is complete", res.Depth, res.States))
 	}
